@@ -178,11 +178,12 @@ class ReadBack(Leg):
             nv = rng.randint(1, 5)
             k = rng.choice(["KDir", "KDirSub", "KUnd", "KUndSub"])
             adj = [[v, [rng.randrange(nv) for _ in range(rng.choice([0, 1, 2, 3]))]] for v in range(nv) if rng.random() < 0.8]
-            yield {"nv": nv, "k": k, "adj": adj, "matrix": rng.random() < 0.5}
+            yield {"nv": nv, "k": k, "adj": adj, "matrix": rng.random() < 0.5, "cls": [rng.choice(H.NV_CLASSES) for _ in range(nv)]}
 
     def observe(self, case):
         nv, k = case["nv"], case["k"]
-        ops = [["NV", False, [], []] for _ in range(nv)]
+        cls = case.get("cls") or [False] * nv
+        ops = [["NV", cls[i], [], []] for i in range(nv)]
         if case["matrix"]:
             cnt = {(a, b): 1 for a, vs in case["adj"] for b in vs}
             rows = [[1 if (i, j) in cnt else 0 for j in range(nv)] for i in range(nv)]
